@@ -2,7 +2,10 @@ module verifharness
 
 go 1.26
 
-require github.com/kaptinlin/gozod v0.0.0
+require (
+	github.com/kaptinlin/gozod v0.0.0
+	github.com/kaptinlin/jsonschema v0.7.3
+)
 
 require (
 	github.com/go-json-experiment/json v0.0.0-20251027170946-4849db3c2f7e // indirect
@@ -10,7 +13,6 @@ require (
 	github.com/golang-jwt/jwt/v5 v5.3.1 // indirect
 	github.com/kaptinlin/go-i18n v0.2.11 // indirect
 	github.com/kaptinlin/jsonpointer v0.4.16 // indirect
-	github.com/kaptinlin/jsonschema v0.7.3 // indirect
 	github.com/kaptinlin/messageformat-go v0.4.18 // indirect
 	golang.org/x/text v0.34.0 // indirect
 )
